@@ -115,6 +115,9 @@ func (k Keeper) ReturnSlashedTokens(ctx context.Context, amt math.Int, hashId []
 		// the dispute module pays the returned tokens into the bonded pool, so the token source is
 		// always bonded: for a validator that is not bonded the staking module then moves the amount
 		// from the bonded to the not bonded pool, keeping both pools in line with the validators' tokens
+		if shareAmt.TruncateInt().IsZero() {
+			continue
+		}
 		_, err = k.stakingKeeper.Delegate(ctx, delAddr, shareAmt.TruncateInt(), stakingtypes.Bonded, val, false) // false means to not subtract tokens from an account
 		if err != nil {
 			return err
@@ -165,6 +168,10 @@ func (k Keeper) FeeRefund(ctx context.Context, hashId []byte, amt math.Int) erro
 		amtDec := math.LegacyNewDecFromInt(amt)
 		shareAmtDec := sourceAmountDec.Mul(amtDec).Quo(trackedFeesTotalDec)
 		shareAmt := shareAmtDec.TruncateInt()
+		// delegating zero tokens would leave a delegation with zero shares behind
+		if shareAmt.IsZero() {
+			continue
+		}
 		_, err = k.stakingKeeper.Delegate(ctx, sdk.AccAddress(source.DelegatorAddress), shareAmt, stakingtypes.Bonded, val, false)
 		if err != nil {
 			return err
@@ -203,6 +210,10 @@ func (k Keeper) GetBondedValidators(ctx context.Context, max uint32) ([]stakingt
 // TODO: this should be in dispute module, no reason for it to be in reporter module
 // Stakes a given amount of tokens to a BONDED validator from a given address
 func (k Keeper) AddAmountToStake(ctx context.Context, acc sdk.AccAddress, amt math.Int) error {
+	// nothing to stake; a zero delegation would create a delegation with zero shares
+	if amt.IsZero() {
+		return nil
+	}
 	vals, err := k.GetBondedValidators(ctx, 1)
 	if err != nil {
 		return err
